@@ -28,3 +28,20 @@ func (c *ConcurrentArrayBlockingQueue[T]) zzverifSnap() string {
 func (c *ConcurrentLinkedBlockingQueue[T]) zzverifSnap() string {
 	return fmt.Sprintf("max=%d,q=%s", c.maxSize, zzverifVals(c.linkedlist.AsSlice()))
 }
+
+// cond (the broadcast helper of delay_queue.go, also used by ConcurrentLinkedBlockingQueue): the identity of the
+// channel currently stored in c.signal, in the numbering of the event log (zzverifChanID; the same numbers the
+// log gives for `close(old)` and for the `<-signal` select arms).  Only called inside the log mutex.
+func (c *cond) zzverifSnap() string {
+	return fmt.Sprintf("sig=%d", zzverifChanID(c.signal))
+}
+
+// DelayQueue: the heap array (root first; elements are rendered by their own String method, "id:deadline"
+// for the elements of harness/evtrace).  Never calls Delay().
+func (d *DelayQueue[T]) zzverifSnap() string {
+	data := d.q.VerifData()
+	if data == nil {
+		return "na"
+	}
+	return "q=" + zzverifVals(data[1:])
+}
